@@ -253,6 +253,8 @@ class Ctx:
     # ---- violation handling ---------------------------------------------
     def handle(self, v: Violation, case):
         """Return True if the violation is to be raised to the driver."""
+        if v.case is not None:
+            case = v.case
         k = match_known(self.known, v.sig)
         if k is not None:
             self.known_hits[k["id"]] += 1
@@ -273,6 +275,8 @@ class Ctx:
 
     def fail_now(self, v: Violation, case):
         """For enumerations (no shrinking): record unless known / muted."""
+        if v.case is not None:
+            case = v.case
         k = match_known(self.known, v.sig)
         if k is not None:
             self.known_hits[k["id"]] += 1
